@@ -43,7 +43,7 @@ def gen_history(rng, malformed=False):
     ops = []
     kinds = {}
     for c in range(ncoll):
-        kinds[c] = rng.choice(["rlayer", "rlayer", "rfilter"])
+        kinds[c] = rng.choice(["rlayer", "rlayer2", "rlayer2", "rfilter"])
         ops.append((rng.randrange(n), ("new", c, rng.randrange(len(filters)), kinds[c])))
     for t in range(n):
         if rng.random() < 0.85:
@@ -101,11 +101,11 @@ def gen_scenario(rng):
     n = rng.choice([2, 2, 3])
     filters = [rand_rspec(rng) for _ in range(rng.randint(2, 4))]
     css = rng.sample(range(sc.NCS), rng.randint(1, 3))
-    kind = rng.choice(["rlayer", "rlayer", "rfilter"])
+    kind = rng.choice(["rlayer", "rlayer2", "rfilter"])
     pre = [(0, ("new", 0, rng.randrange(len(filters)), kind))]
     two = rng.random() < 0.25
     if two:
-        pre.append((0, ("new", 1, rng.randrange(len(filters)), rng.choice(["rlayer", "rfilter"]))))
+        pre.append((0, ("new", 1, rng.randrange(len(filters)), rng.choice(["rlayer", "rlayer2", "rfilter"]))))
     for t in range(n):
         pre.append((t, ("setdefault", rng.randrange(2) if two else 0)))
     for cs in css:
